@@ -379,7 +379,8 @@ def short_sequences(alphabet: str, k: int, indexable: bool, npts: int = 40, mem:
     """All op sequences of length k over a small alphabet, after the prefix `create; add; add`:
        A add (new distinct id, ids in non-sorted order)   L lookup latest id   O lookup oldest id   N lookup absent id
        S sync   P reopen for append   R reopen for read   G get index 0   H get last index   I iter   E len   C close+reopen append
-       V save the in-memory store to the file"""
+       V save the in-memory store to the file   W add with the wrong identification status (no id in an identified store / an id
+       in an unidentified one): refused"""
     import itertools
 
     out = []
@@ -398,10 +399,19 @@ def short_sequences(alphabet: str, k: int, indexable: bool, npts: int = 40, mem:
             tag += 1
             return o
 
+        def wrong_add():
+            # an add whose identification status is the opposite of the store's: must be refused, and change nothing
+            nonlocal tag
+            o = {'op': 'add', 'tag': tag, 'npts': npts, 'extra': False, 'fid': None if indexable else 7000 + tag}
+            tag += 1
+            return o
+
         ops += [add(), add()]
         for ch in word:
             if ch == 'A':
                 ops.append(add())
+            elif ch == 'W':
+                ops.append(wrong_add())
             elif ch == 'L':
                 ops.append({'op': 'get_flight', 'fid': ids[-1]})
             elif ch == 'O':
